@@ -29,7 +29,7 @@ inductive LitExpr where
   | struct (name : String) (fields : List (String × LitExpr))   -- `Name { field: e, .. }` (Rust member identifiers)
   | path (enumName variant : String)                  -- `Enum::Variant`
   | variant (enumName variant : String) (e : LitExpr) -- `Enum::Variant(e)` (a `@oneOf` input)
-  | ident (x : String)                                -- an enum literal at a type that is not an enum
+  | ident (x : String)                                -- an enum literal at a type that is not an enum: the emitted token is the string literal `"x"` (`quote!(#en)` of a `String`; a `&str`, which type-checks at no type the generator emits)
   | compileError (msg : String)                       -- `compile_error!("msg")`
   deriving Repr, BEq, Inhabited
 
